@@ -15,6 +15,7 @@ import (
 	"os"
 	"sort"
 	"strings"
+	"sync"
 
 	"verif.local/lab/vc"
 )
@@ -27,6 +28,24 @@ type witness struct {
 	Got     any        `json:"got,omitempty"`
 	Round   *roundSpec `json:"round,omitempty"`
 	Note    string     `json:"note,omitempty"`
+}
+
+// violate records a violation. The common runtime keeps at most 40 witnesses per run, so
+// only the first occurrence of a key carries a witness (every key gets a replay file);
+// all occurrences are counted and reported as "violation_occurrences" in the evidence.
+var (
+	occMu sync.Mutex
+	occ   = map[string]int{}
+)
+
+func violate(run *vc.Run, key, what string, w any) {
+	occMu.Lock()
+	occ[key]++
+	n := occ[key]
+	occMu.Unlock()
+	if n == 1 || run.IsKnown(key) {
+		run.Violation(key, what, w)
+	}
 }
 
 // ---------------------------------------------------------------- formats
@@ -61,20 +80,20 @@ func checkFormat(run *vc.Run, c fcase, verbose bool) []string {
 	switch {
 	case got.Panic != "":
 		k := "panic:" + got.Site
-		run.Violation(k, fmt.Sprintf("ValidateFormat(%q, %s) panicked: %s", c.Value, c.Format, got.Panic), w)
+		violate(run, k, fmt.Sprintf("ValidateFormat(%q, %s) panicked: %s", c.Value, c.Format, got.Panic), w)
 		keys = append(keys, k)
 	case c.Valid && !got.Accepted:
 		k := fmt.Sprintf("format=%s class=%s rejected", c.Format, c.Class)
-		run.Violation(k, fmt.Sprintf("well-formed %s %q rejected: %s", c.Format, c.Value, trunc(got.ErrText, 160)), w)
+		violate(run, k, fmt.Sprintf("well-formed %s %q rejected: %s", c.Format, c.Value, trunc(got.ErrText, 160)), w)
 		keys = append(keys, k)
 	case !c.Valid && got.Accepted:
 		k := fmt.Sprintf("format=%s class=%s accepted", c.Format, c.Class)
-		run.Violation(k, fmt.Sprintf("malformed %s %q accepted (%s)", c.Format, c.Value, c.Why), w)
+		violate(run, k, fmt.Sprintf("malformed %s %q accepted (%s)", c.Format, c.Value, c.Why), w)
 		keys = append(keys, k)
 	}
 	if !got.Accepted && got.Panic == "" && got.ErrName != "invalid_format" {
 		k := fmt.Sprintf("format=%s wrong-error-name", c.Format)
-		run.Violation(k, fmt.Sprintf("rejection of %q carries name %q type %q, want invalid_format", c.Value, got.ErrName, got.ErrType), w)
+		violate(run, k, fmt.Sprintf("rejection of %q carries name %q type %q, want invalid_format", c.Value, got.ErrName, got.ErrType), w)
 		keys = append(keys, k)
 	}
 	if len(keys) == 0 {
@@ -102,7 +121,7 @@ func checkRelation(run *vc.Run, value string, verbose bool) []string {
 		keys = append(keys, "relation: ip rejects a string that ipv4 or ipv6 accepts")
 	}
 	for _, k := range keys {
-		run.Violation(k, fmt.Sprintf("%q: ipv4=%v ipv6=%v ip=%v", value, a4, a6, aip), w)
+		violate(run, k, fmt.Sprintf("%q: ipv4=%v ipv6=%v ip=%v", value, a4, a6, aip), w)
 	}
 	return keys
 }
@@ -163,13 +182,13 @@ func checkPatternOnce(run *vc.Run, c pcase, path string, verbose bool) (verdict,
 	switch {
 	case got.Panic != "":
 		keys = append(keys, "panic:"+got.Site)
-		run.Violation(keys[0], fmt.Sprintf("ValidatePattern(%q,%q) panicked: %s", c.V, c.P, got.Panic), w)
+		violate(run, keys[0], fmt.Sprintf("ValidatePattern(%q,%q) panicked: %s", c.V, c.P, got.Panic), w)
 	case got.Accepted != c.Want:
 		keys = append(keys, "pattern: "+path+" verdict differs from regexp.MatchString")
-		run.Violation(keys[0], fmt.Sprintf("ValidatePattern(v=%q,p=%q) accepted=%v but MatchString=%v", c.V, c.P, got.Accepted, c.Want), w)
+		violate(run, keys[0], fmt.Sprintf("ValidatePattern(v=%q,p=%q) accepted=%v but MatchString=%v", c.V, c.P, got.Accepted, c.Want), w)
 	case !got.Accepted && got.ErrName != "invalid_pattern":
 		keys = append(keys, "pattern: wrong-error-name")
-		run.Violation(keys[0], fmt.Sprintf("mismatch reported with name %q type %q, want invalid_pattern", got.ErrName, got.ErrType), w)
+		violate(run, keys[0], fmt.Sprintf("mismatch reported with name %q type %q, want invalid_pattern", got.ErrName, got.ErrType), w)
 	}
 	return got, keys
 }
@@ -184,7 +203,7 @@ func checkCacheInvariant(run *vc.Run, where string) {
 	run.Count("cache_entries_checked", len(snap))
 	for k, s := range snap {
 		if k != s {
-			run.Violation("cache-invariant: cached regexp was not compiled from its key",
+			violate(run, "cache-invariant: cached regexp was not compiled from its key",
 				fmt.Sprintf("at quiescent point (%s): key %q holds regexp %q", where, k, s), witness{Kind: "cache", Note: where, Value: k, Got: s})
 		}
 	}
@@ -260,11 +279,11 @@ func runPatterns(run *vc.Run) {
 			run.Eval(1)
 			run.Count("history_rejudged", 1)
 			if got.Accepted != first[i][j].Accepted || got.ErrName != first[i][j].ErrName {
-				run.Violation("pattern: verdict changed after other patterns were cached",
+				violate(run, "pattern: verdict changed after other patterns were cached",
 					fmt.Sprintf("ValidatePattern(v=%q,p=%q): first accepted=%v, after %d other calls accepted=%v (MatchString=%v)", c.V, c.P, first[i][j].Accepted, nb, got.Accepted, c.Want),
 					witness{Kind: "history", Pattern: &c, Got: map[string]any{"before": first[i][j], "after": got}})
 			} else if got.Accepted != c.Want {
-				run.Violation("pattern: cached-path verdict differs from regexp.MatchString",
+				violate(run, "pattern: cached-path verdict differs from regexp.MatchString",
 					fmt.Sprintf("ValidatePattern(v=%q,p=%q) accepted=%v but MatchString=%v", c.V, c.P, got.Accepted, c.Want),
 					witness{Kind: "pattern", Pattern: &c, Got: got, Note: "phase C"})
 			}
@@ -302,12 +321,12 @@ func handleRound(run *vc.Run, sp roundSpec, res concResult, verbose bool) {
 				site = f[1]
 			}
 			w.Kind, w.Note = "fatal", trunc(res.stderr, 2500)
-			run.Violation("fatal: concurrent map access in "+site, fmt.Sprintf("child of round %d (G=%d) died: fatal error: %s", sp.Round, sp.G, m[1]), w)
+			violate(run, "fatal: concurrent map access in "+site, fmt.Sprintf("child of round %d (G=%d) died: fatal error: %s", sp.Round, sp.G, m[1]), w)
 			return
 		}
 		if strings.Contains(res.stderr, "panic:") {
 			w.Kind, w.Note = "fatal", trunc(res.stderr, 2500)
-			run.Violation("panic:"+vc.PanicSite(res.stderr, "goa/v3/", "/repo/"), fmt.Sprintf("child of round %d (G=%d) panicked", sp.Round, sp.G), w)
+			violate(run, "panic:"+vc.PanicSite(res.stderr, "goa/v3/", "/repo/"), fmt.Sprintf("child of round %d (G=%d) panicked", sp.Round, sp.G), w)
 			return
 		}
 		run.Infra("concurrent round %d: %s: %s", sp.Round, res.problem, trunc(res.stderr, 300))
@@ -341,7 +360,7 @@ func handleRound(run *vc.Run, sp roundSpec, res concResult, verbose bool) {
 		case m.Problem == "wrong error name":
 			key = "pattern: wrong-error-name"
 		}
-		run.Violation(key, fmt.Sprintf("round %d G=%d goroutine %d op %d: %s (value %q pattern %q format %q)", sp.Round, sp.G, m.Goroutine, m.Op, m.Problem, m.Value, m.Pattern, m.Format), w)
+		violate(run, key, fmt.Sprintf("round %d G=%d goroutine %d op %d: %s (value %q pattern %q format %q)", sp.Round, sp.G, m.Goroutine, m.Op, m.Problem, m.Value, m.Pattern, m.Format), w)
 		if verbose {
 			fmt.Printf("  %s: %+v\n", key, m)
 		}
@@ -352,7 +371,7 @@ func handleRound(run *vc.Run, sp roundSpec, res concResult, verbose bool) {
 		run.Eval(1)
 		run.Count("cache_entries_checked", o.CacheSize)
 		for _, b := range o.CacheBad {
-			run.Violation("cache-invariant: cached regexp was not compiled from its key", fmt.Sprintf("after round %d (G=%d): %s", sp.Round, sp.G, b), witness{Kind: "cache", Round: &sp, Note: b})
+			violate(run, "cache-invariant: cached regexp was not compiled from its key", fmt.Sprintf("after round %d (G=%d): %s", sp.Round, sp.G, b), witness{Kind: "cache", Round: &sp, Note: b})
 		}
 	}
 }
@@ -376,7 +395,7 @@ func reportRaces(run *vc.Run, dir string, pidRound map[int]roundSpec, verbose bo
 				w.Round = &sp
 			}
 		}
-		run.Violation(k, fmt.Sprintf("race detector: %d report(s) for this function pair; first: %s", r.Count, firstLines(r.Text, 12)), w)
+		violate(run, k, fmt.Sprintf("race detector: %d report(s) for this function pair; first: %s", r.Count, firstLines(r.Text, 12)), w)
 		if verbose {
 			fmt.Printf("%s (%d reports)\n%s\n", k, r.Count, r.Text)
 		}
@@ -422,11 +441,18 @@ func main() {
 	)
 	if run.Replay != "" {
 		replay(run)
-		run.Finish()
+		finish(run)
 	}
-	runFormats(run)
 	runPatterns(run)
 	runConcurrent(run, roundList(run), false)
+	runFormats(run)
+	finish(run)
+}
+
+func finish(run *vc.Run) {
+	occMu.Lock()
+	run.Extra("violation_occurrences", occ)
+	occMu.Unlock()
 	run.Floor(5000)
 	run.Finish()
 }
